@@ -49,6 +49,15 @@ VALID_OPTS = [b"\x02\x04\x05\xb4", b"\x01", b"\x03\x03\x07", b"\x04\x02", b"\x08
 
 def option_area(r):
     c = r.random()
+    if c < 0.04:
+        # many one- and two-byte options: up to 40 layout entries in one header
+        n = r.choice([24, 25, 26, 28, 32, 36, 40])
+        out = bytes(r.choice([1, 1, 1, 1, 4]) for _ in range(n))
+        out = out.replace(b"\x04", b"\x04\x02")[:40]
+        if r.random() < 0.5:
+            out = b"\x02\x04\x05\xb4" + out[:35] + b"\x00"
+        out = out[:40]
+        return out + b"\x01" * (-len(out) % 4)
     if c < 0.45:
         # walk of valid options
         out = b""
